@@ -128,6 +128,7 @@ def run_tlc(family, module, cfg, *, workers=8, timeout_s=600, cases_path=None, s
         res.cases_path = cases_path
         tail = []
         cur = None
+        saw_noerr = saw_finished = False
         proc = subprocess.Popen(cmd, cwd=d, stdout=subprocess.PIPE, stderr=subprocess.STDOUT,
                                 text=True, errors="replace")
         deadline = t0 + timeout_s
@@ -148,6 +149,10 @@ def run_tlc(family, module, cfg, *, workers=8, timeout_s=600, cases_path=None, s
                         break
                     continue
                 line = line.rstrip("\n")
+                if "No error has been found" in line:
+                    saw_noerr = True
+                if "Model checking completed" in line or line.startswith("Finished in"):
+                    saw_finished = True
                 tail.append(line)
                 if len(tail) > 400:
                     del tail[:100]
@@ -207,7 +212,7 @@ def run_tlc(family, module, cfg, *, workers=8, timeout_s=600, cases_path=None, s
             st[1].pop("__last", None)
         finished = any("Model checking completed. No error has been found." in l or
                        "Finished in" in l for l in tail)
-        noerr = any("No error has been found" in l for l in tail)
+        noerr = saw_noerr or any("No error has been found" in l for l in tail)
         if simulate is not None:
             # simulation ends by num= limit; "Finished" is not always printed
             noerr = noerr or (res.rc == 0 and not res.errors)
